@@ -29,6 +29,9 @@ ASSUMPTIONS = [
     'purity is observed on the python objects handed in (tag, attrib order, text, tail, children, lxml nsmap), '
     'not on C-level lxml state; schema proxies are not used',
     'current_dt is fixed by the caller on both sides; templates avoid fn:random-number-generator, fn:doc and collations',
+    'caller-owned function items are dumped as (class, kind, name, arity, nargs, instance-level evaluate/select overrides, '
+    'bound argument tokens of a PARTIAL function with placeholders as "?"); the argument tokens that a plain function '
+    'item keeps from its last call and the value parked in a placeholder are treated as scratch, not as state',
     'scope programs use integer/string literals, sequences, +, =, count() only, so that the reference interpreter '
     'is definitional; XPST0008 is accepted at parse time or at evaluation time',
 ]
@@ -37,9 +40,14 @@ FLOORS = {
     'hist:vars-reused-after-tz': (0.40, 'hist'),
     'step:lxml': (0.20, 'step'),
     'step:token-mode': (0.20, 'step'),
+    'step:function-item': (0.08, 'step'),
+    'step:serialize': (0.10, 'step'),
+    'step:serialize-doc-with-tails': (0.40, 'step:serialize'),
+    'step:rebind': (0.03, 'step'),
+    'scope:multi-clause-rebind': (0.10, 'scope'),
     'scope:shadowing': (0.40, 'scope'),
     'scope:free-variable': (0.05, 'scope'),
-    'scope:inline-function': (0.20, 'scope'),
+    'scope:inline-function': (0.12, 'scope'),
 }
 
 NS = {'p': 'urn:p', 'q': 'urn:q', 'xs': 'http://www.w3.org/2001/XMLSchema'}
@@ -133,8 +141,72 @@ TEMPLATES = [
     ('map-value', 31, "map{'k': ($d1, //a)}"),
     ('array-value', 31, '[$d1, $seq, //b]'),
     ('map-for-each', 31, 'map:for-each(map{$s: $n}, function($k, $v){($k, $v + 1)})'),
+    # caller-owned function items in variables, partial application and reuse (round-2 hardening)
+    ('fn-var-partial', 3, "$f3('a', ?, 'c')('b')"),
+    ('fn-var-partial-then-full', 3, "($f3('a', ?, 'c')('b'), $f3('x', 'y', 'z'))"),
+    ('fn-var-full', 3, "$f3('x', 'y', 'z')"),
+    ('fn-var-partial-twice', 3, "$f3(?, 'm', ?)('l', ?)('r')"),
+    ('fn-let-named-ref', 3, "let $g := concat#3 return ($g('a', ?, 'c')('b'), $g('x', 'y', 'z'))"),
+    ('fn-let-var', 3, "let $g := $f3 return ($g(?, 'm', ?)('l', 'r'), function-arity($g))"),
+    ('fn-let-inline', 3, "let $h := function($a, $b, $c){concat($a, $b, $c)} return ($h('a', ?, 'c')('b'), $h('x', 'y', 'z'))"),
+    ('fn-inline-var-partial', 3, '($fi(1, ?)(2), $fi(3, 4))'),
+    ('fn-inline-var-full', 3, '$fi($n, $s)'),
+    ('fn-partial-var', 3, "($fp('mid'), $fp(?)('z'))"),
+    ('fn-arity-name', 3, '(function-arity($f3), function-name($f3), function-arity($fi), function-arity($fp))'),
+    ('fn-for-each-partial', 3, "for-each(('p', 'q'), $f3('[', ?, ']'))"),
+    ('fn-named-partial-literal', 3, "(string-length(?)('abc'), concat('a', ?, 'c')('b'))"),
+    ('fn-var-returned', 3, "$f3('a', ?, 'c')"),
+    ('fn-map-var', 31, "($fm('a'), $fm(?)('b'), $fm?a, map:size($fm))"),
+    ('fn-array-var', 31, '($fa(2), $fa(?)(3), $fa?1, array:size($fa))'),
+    ('fn-map-var-put', 31, "(map:put($fm, 'a', $n)?a, $fm?a)"),
+    ('fn-array-var-append', 31, '(array:size(array:append($fa, $n)), array:size($fa), array:put($fa, 1, $s)?1, $fa?1)'),
+    # multi-clause binders where a later clause rebinds the name of an earlier one
+    ('for-rebind', 2, 'for $x in (1, 2), $y in ($x * 10), $x in ($y + 1) return $x'),
+    ('for-rebind-outer', 2, 'for $n in (1, 2), $y in ($n * 10), $n in ($y + 1) return ($n, $y)'),
+    ('for-rebind-outer-read', 2, '(for $q in (1, 2), $y in ($n + $q, 7), $q in ($y, $n) return ($q, $n), $n)'),
+    ('some-rebind', 2, 'some $x in (1, 2), $y in ($x * 10), $x in ($y + 1) satisfies $x = 21'),
+    ('every-rebind-outer', 2, 'every $n in (1, 2), $y in ($n * 10), $n in ($y + 1) satisfies $n = ($y + 1)'),
+    ('for-rebind-let', 3, 'let $x := 100 return (for $x in (1, 2), $y in ($x, $x), $x in ($y + 1) return $x, $x)'),
+    # serialization / parsing functions with parameters, on the caller's tree (elements with tails)
+    ('ser-all', 3, 'serialize(//*)'),
+    ('ser-first-child', 3, 'serialize(/*/*[1])'),
+    ('ser-standalone', 31, "serialize(//*, map{'standalone': true()})"),
+    ('ser-standalone-omit', 31, "serialize(/*/*, map{'standalone': 'omit', 'omit-xml-declaration': false()})"),
+    ('ser-indent', 31, "serialize(//*, map{'indent': true()})"),
+    ('ser-omit-decl', 31, "serialize(/*/*[1], map{'omit-xml-declaration': false()})"),
+    ('ser-method-text', 31, "serialize(//*, map{'method': 'text'})"),
+    ('ser-method-html', 31, "serialize(/*/*, map{'method': 'html', 'indent': false()})"),
+    ('ser-method-xhtml', 31, "serialize(/*/*[last()], map{'method': 'xhtml'})"),
+    ('ser-encoding', 31, "serialize(//*, map{'encoding': 'utf-16'})"),
+    ('ser-item-separator', 31, "serialize((//*, $s, //text()), map{'item-separator': '|'})"),
+    ('ser-cdata', 31, "serialize(//*, map{'cdata-section-elements': (fn:QName('', 'a'), fn:QName('urn:p', 'p:b'))})"),
+    ('ser-character-map', 31, "serialize(//*, map{'use-character-maps': map{'t': 'T'}})"),
+    ('ser-many-params', 31, "serialize(//*, map{'standalone': false(), 'indent': true(), 'encoding': 'utf-8', 'item-separator': ' ', 'method': 'xml'})"),
+    ('ser-bad-indent', 31, "serialize(//*, map{'indent': $s})"),
+    ('ser-bad-method', 31, "serialize(//*, map{'method': concat('bogus', $s)})"),
+    ('ser-bad-standalone', 31, "serialize(//*, map{'standalone': $n})"),
+    ('ser-bad-static', 31, "serialize(//*, map{'standalone': 7})"),
+    ('ser-attribute', 3, 'serialize((//*, //@*))'),
+    ('ser-json', 31, "serialize(map{'a': $n, 'b': [$s, true()]}, map{'method': 'json'})"),
+    ('ser-json-seq', 31, "serialize(array{$seq}, map{'method': 'json', 'indent': true()})"),
+    ('ser-json-node', 31, "serialize(map{'e': /*/*[1]}, map{'method': 'json'})"),
+    ('ser-adaptive', 31, "serialize((//*[1], $n, $s), map{'method': 'adaptive'})"),
+    ('ser-elem-params', 3, 'serialize(//*, $sp)'),
+    ('ser-elem-params-child', 3, 'serialize(/*/*[1], $sp)'),
+    ('ser-var-element', 3, 'serialize(($e, $nodes))'),
+    ('ser-var-element-standalone', 31, "serialize($nodes, map{'standalone': true(), 'indent': true()})"),
+    ('parse-xml', 3, "parse-xml('<a x=\"1\">t<b/>u</a>')//node()"),
+    ('parse-xml-fragment', 3, "parse-xml-fragment('t<b/>u<c>v</c>')/node()"),
+    ('parse-xml-roundtrip', 3, 'parse-xml(serialize(/*))//*'),
+    ('parse-json', 31, "parse-json('{\"a\": [1, 2, {\"b\": null}], \"a2\": \"x\"}')?a?*"),
+    ('parse-json-options', 31, "parse-json('{\"a\": 1, \"a\": 2}', map{'duplicates': 'use-last', 'liberal': false()})?a"),
+    ('parse-json-reject', 31, "parse-json('{\"a\": 1, \"a\": 2}', map{'duplicates': 'reject'})"),
+    ('json-to-xml', 31, "json-to-xml('{\"a\": [1, \"t\"]}')//*"),
+    ('json-to-xml-options', 31, "json-to-xml('{\"a\": 1, \"a\": 2}', map{'duplicates': 'use-first', 'validate': false()})//*"),
+    ('xml-to-json', 31, "xml-to-json(json-to-xml('{\"k\": [1, true, null]}'), map{'indent': false()})"),
 ]
 T_BY_NAME = {t[0]: t for t in TEMPLATES}
+MAY_FAIL_STATICALLY = {'ser-bad-static', 'parse-json-reject'}
 
 DT_POOL = ['2000-01-01T12:00:00', '2000-01-01T12:00:00', '2000-01-01T13:30:00', '1999-12-31T23:59:59',
            '2000-01-01T12:00:00Z', '2000-01-01T12:00:00+05:00']
@@ -173,16 +245,43 @@ class Doc:
         self.backend = backend
 
 
+SER_NS = 'http://www.w3.org/2010/xslt-xquery-serialization'
+SER_PARAM_SETS = [
+    [('indent', 'yes')], [('omit-xml-declaration', 'no')], [('standalone', 'yes')], [('method', 'text')],
+    [('standalone', 'yes'), ('indent', 'yes'), ('omit-xml-declaration', 'no')], [('method', 'html')],
+    [('indent', 'maybe')], [('method', 'bogus')], [('encoding', 'utf-16')], [('item-separator', '|')],
+    [('cdata-section-elements', 'a')], [], [('indent', 'yes'), ('indent', 'no')],
+]
+_FN_SRC = {'f3': 'concat#3', 'fi': 'function($a, $b){($b, $a)}', 'fp': "concat('<', ?, '>')",
+           'fm': "map{'a': 1, 'b': (2, 3)}", 'fa': '[10, (20, 21), 30]'}
+
+
+def build_ser_params(i):
+    import xml.etree.ElementTree as ET
+    root = ET.Element('{%s}serialization-parameters' % SER_NS)
+    for name, value in SER_PARAM_SETS[i % len(SER_PARAM_SETS)]:
+        ET.SubElement(root, '{%s}%s' % (SER_NS, name)).set('value', value)
+    return root
+
+
 def build_vars(vs, vdoc: Doc):
-    dt = _ep()['dt']
+    o = _ep()
+    dt = o['dt']
     e = vdoc.built.root
-    return {
+    vars_ = {
         'n': vs['n'], 's': vs['s'], 'seq': list(vs['seq']),
         'd1': dt.DateTime10.fromstring(vs['d1']), 'd2': dt.DateTime10.fromstring(vs['d2']),
         't1': dt.Time.fromstring(vs['t1']), 'dd': dt.Date10.fromstring(vs['dd']),
         'dts': [dt.DateTime10.fromstring(vs['d2']), dt.DateTime10.fromstring(vs['d1'])],
         'e': e, 'nodes': [e[0], e[1]],
+        'sp': build_ser_params(vs.get('sp', 0)),
     }
+    # caller-owned function items: obtained once by the caller and handed in as variable values
+    parser = o['parsers'][31]()
+    ctx = o['ep'].XPathContext(e)
+    for name, src in _FN_SRC.items():
+        vars_[name] = parser.parse(src).evaluate(ctx)
+    return vars_
 
 
 # --------------------------------------------------------------------------
@@ -212,7 +311,45 @@ def dump_value(v):
         return (type(v).__name__, str(v), repr(v.tzinfo))
     if hasattr(v, 'tag'):
         return ('elem', id(v), dump_tree(v))
+    if isinstance(v, _ep()['XPathFunction']):
+        return dump_function(v)
     return (type(v).__name__, repr(v))
+
+
+def dump_token(tk, depth=0):
+    """own dump of a token subtree: symbol, value, operands"""
+    if depth > 6:
+        return ('...',)
+    val = tk.value
+    if tk.symbol == '?' and not len(tk):
+        val = '?'          # a placeholder: the argument of the last call is parked in its value (scratch, not state)
+    elif isinstance(val, (list, tuple)):
+        val = tuple(repr(x) for x in val)
+    elif not isinstance(val, (str, int, float, bool, type(None))):
+        val = repr(val) if not isinstance(val, _ep()['XPathFunction']) else 'function-item'
+    return (tk.symbol, val, tuple(dump_token(x, depth + 1) for x in tk))
+
+
+def dump_function(f):
+    """caller-visible state of a function item: class, kind (label), name, arity, nargs, bound argument tokens,
+    instance-level evaluate/select overrides (a function converted to a partial gets them), map/array content"""
+    o = _ep()
+    if isinstance(f, o['XPathMap']):
+        return ('map-item', tuple((repr(k), dump_value(x)) for k, x in f.items()))
+    if isinstance(f, o['XPathArray']):
+        return ('array-item', tuple(dump_value(x) for x in f.items()))
+    try:
+        name = f.name.qname if f.name is not None else None
+    except Exception as x:      # observation only
+        name = 'name raises ' + type(x).__name__
+    return ('function-item', type(f).__name__, str(f.label), f.symbol, name, f.arity, repr(f.nargs),
+            # bound arguments are part of the value of a PARTIAL function only; a plain function item keeps the
+            # argument tokens of its last call as scratch
+            tuple(dump_token(x) for x in f) if str(f.label).endswith('partial function') else 'plain',
+            tuple(sorted(k for k in f.__dict__ if k in (
+                'evaluate', 'select', '_partial_evaluate', '_partial_select'))),
+            tuple(sorted((k, repr(v)) for k, v in (getattr(f, 'variables', None) or {}).items()))
+            if not callable(getattr(f, 'variables', None)) else ())
 
 
 def dump_vars(vars_):
@@ -273,7 +410,8 @@ def canon_item(x, book: Book, depth=0):
     if isinstance(x, o['XPathArray']):
         return ('array', tuple(canon_value(v, book, depth + 1) for v in x.items()))
     if isinstance(x, o['XPathFunction']):
-        return ('function', getattr(x, 'symbol', '?'), getattr(x, 'arity', None))
+        return ('function', getattr(x, 'symbol', '?'), getattr(x, 'arity', None), str(x.label),
+                tuple(dump_token(t) for t in x) if str(x.label).endswith('partial function') else 'plain')
     if isinstance(x, float) and x != x:
         return (type(x).__name__, 'NaN')
     if isinstance(x, o['dt'].AbstractDateTime):
@@ -352,8 +490,13 @@ def judge_hist(case, rec: Recorder | None = None):
         try:
             sels.append(o['ep'].Selector(path, namespaces=ns, parser=cls))
             toks.append(cls(namespaces=ns).parse(path))
-        except Exception as x:      # a template that does not compile is a harness error
-            raise RuntimeError(f'template {name} does not compile: {x!r}')
+        except o['ep'].ElementPathError as x:
+            if name not in MAY_FAIL_STATICALLY:      # any other template that does not compile is a harness error
+                raise RuntimeError(f'template {name} does not compile: {x!r}')
+            err = ('e', (x.code or type(x).__name__).split(':')[-1], x)      # static error: the result of every step
+            del sels[len(toks):]
+            sels.append(err)
+            toks.append(err)
     used_docs = [set() for _ in sels]
     tz_seen = [False] * len(varmaps)
     hclasses = set()
@@ -370,7 +513,8 @@ def judge_hist(case, rec: Recorder | None = None):
         def first_child(d):      # context item = first element child of the root element (when there is one)
             kids = [c for c in d.built.root if isinstance(c.tag, str)]
             return kids[0] if with_item and kids else None
-        got = _run(sels[ei], toks[ei], mode, doc.root, varmaps[vi], tz, ns, book, first_child(doc))
+        got = sels[ei] if isinstance(sels[ei], tuple) else \
+            _run(sels[ei], toks[ei], mode, doc.root, varmaps[vi], tz, ns, book, first_child(doc))
         # fresh: new parser, new parse, freshly built document and variables
         fbook = Book()
         fdoc = Doc(case['docs'][di]['spec'], case['docs'][di]['backend'], case['docs'][di]['as_tree'])
@@ -380,15 +524,27 @@ def judge_hist(case, rec: Recorder | None = None):
         fvars = build_vars(case['vars'][vi], fvd)
         fns = dict(NS)
         cls = o['parsers'][max(ver, minver)]
-        fsel = o['ep'].Selector(path, namespaces=fns, parser=cls)
-        ftok = cls(namespaces=fns).parse(path)
-        fresh = _run(fsel, ftok, 'select' if mode == 'both' else mode, fdoc.root, fvars, tz, fns, fbook, first_child(fdoc))
+        try:
+            fsel = o['ep'].Selector(path, namespaces=fns, parser=cls)
+            ftok = cls(namespaces=fns).parse(path)
+        except o['ep'].ElementPathError as x:
+            fresh = ('e', (x.code or type(x).__name__).split(':')[-1], x)
+        else:
+            fresh = _run(fsel, ftok, 'select' if mode == 'both' else mode, fdoc.root, fvars, tz, fns, fbook, first_child(fdoc))
         where = f'step {si}: {name} [{path}] mode={mode} doc=d{di}({doc.backend}) vars=v{vi} tz={tz} item={bool(with_item)}'
         if rec is not None and first_child(doc) is not None:
             rec.cls('step:context-item')
         if rec is not None:
             rec.cls('step')
             rec.cls('tmpl:' + name)
+            if name.startswith('ser-'):
+                rec.cls('step:serialize')
+                if any(c.tail for c in doc.built.root.iter() if c is not doc.built.root):
+                    rec.cls('step:serialize-doc-with-tails')
+            elif name.startswith('fn-'):
+                rec.cls('step:function-item')
+            elif '-rebind' in name:
+                rec.cls('step:rebind')
             if doc.backend == 'lxml':
                 rec.cls('step:lxml')
             if mode in ('token', 'tselect'):
@@ -425,7 +581,8 @@ def judge_hist(case, rec: Recorder | None = None):
             now = dump_vars(v)
             if now != var_snap[j]:
                 changed = [a[0] for a, b in zip(now, var_snap[j]) if a != b] or ['keys']
-                what = 'date-time-value' if all(c in ('d1', 'd2', 't1', 'dd', 'dts') for c in changed) else '+'.join(changed)
+                what = 'date-time-value' if all(c in ('d1', 'd2', 't1', 'dd', 'dts') for c in changed) else \
+                    'function-item' if all(c in _FN_SRC for c in changed) else '+'.join(changed)
                 discs.append(Disc(f"C05/hist/variable-modified/{name}/{what}/tz={'set' if tz else 'none'}",
                                   [b for a, b in zip(now, var_snap[j]) if a != b][:2],
                                   [a for a, b in zip(now, var_snap[j]) if a != b][:2], where + f' changed v{j}'))
@@ -504,6 +661,38 @@ def interp(e, env):
             if k == 'every' and not hit:
                 res = False
         return [res]
+    if k == 'mfor':          # for $a in E1, $b in E2, ... return R  ==  for $a in E1 return for $b in E2 return ... R
+        def loop(i, env2):
+            if i == len(e[1]):
+                return interp(e[2], env2)
+            out = []
+            for item in interp(e[1][i][1], env2):
+                out += loop(i + 1, {**env2, e[1][i][0]: [item]})
+            return out
+        return loop(0, env)
+    if k == 'mlet':
+        env2 = env
+        for name, x in e[1]:
+            env2 = {**env2, name: interp(x, env2)}
+        return interp(e[2], env2)
+    if k == 'mq':            # some/every with several clauses = nested quantifiers
+        kind, clauses, lhs, rhs = e[1:]
+
+        def holds(i, env2):
+            if i == len(clauses):
+                a, b = interp(lhs, env2), interp(rhs, env2)
+                if any(type(x) is not type(y) for x in a for y in b):
+                    raise ScopeError('XPTY0004')
+                return any(x == y for x in a for y in b)
+            res = kind == 'every'
+            for item in interp(clauses[i][1], env2):      # no short cut: every combination is evaluated by the model
+                h = holds(i + 1, {**env2, clauses[i][0]: [item]})
+                if kind == 'some' and h:
+                    res = True
+                if kind == 'every' and not h:
+                    res = False
+            return res
+        return [holds(0, env)]
     if k == 'inline':
         args = [interp(a, env) for a in e[3]]
         return interp(e[2], {**env, **dict(zip(e[1], args))})
@@ -540,6 +729,13 @@ def render(e):
         return f'(let ${e[1]} := {render(e[2])} return {render(e[3])})'
     if k in ('some', 'every'):
         return f'({k} ${e[1]} in {render(e[2])} satisfies {render(e[3])} = {render(e[4])})'
+    if k == 'mfor':
+        return '(for ' + ', '.join(f'${v} in {render(x)}' for v, x in e[1]) + f' return {render(e[2])})'
+    if k == 'mlet':
+        return '(let ' + ', '.join(f'${v} := {render(x)}' for v, x in e[1]) + f' return {render(e[2])})'
+    if k == 'mq':
+        return f'({e[1]} ' + ', '.join(f'${v} in {render(x)}' for v, x in e[2]) + \
+            f' satisfies {render(e[3])} = {render(e[4])})'
     if k == 'inline':
         return 'function(' + ', '.join('$' + p for p in e[1]) + '){' + render(e[2]) + '}(' + \
             ', '.join(render(a) for a in e[3]) + ')'
@@ -549,6 +745,14 @@ def render(e):
     if k == 'callvar':
         return f'${e[1]}(' + ', '.join(render(a) for a in e[2]) + ')'
     raise ValueError(k)
+
+
+def _mentions(e, name):
+    if e[0] == 'var':
+        return e[1] == name
+    return any(_mentions(x, name) for x in e[1:] if isinstance(x, list) and x and isinstance(x[0], str)) or \
+        any(_mentions(y, name) for x in e[1:] if isinstance(x, list) and x and isinstance(x[0], list)
+            for y in x if isinstance(y, list) and y and isinstance(y[0], str))
 
 
 def _scan(e, bound, info):
@@ -581,6 +785,23 @@ def _scan(e, bound, info):
             info['shadow'] = True
         _scan(e[3], bound | {e[1]}, info)
         _scan(e[4], bound | {e[1]}, info)
+    elif k in ('mfor', 'mlet', 'mq'):
+        clauses = e[2] if k == 'mq' else e[1]
+        info['binders'].add({'mfor': 'for', 'mlet': 'let'}.get(k) or e[1])
+        own = set()
+        b2 = set(bound)
+        for name, x in clauses:
+            _scan(x, b2, info)
+            if _mentions(x, name):
+                info['self-range'] = True     # the range/value expression reads the (outer) variable of the same name
+            if name in own:
+                info['rebind'] = True
+            if name in b2:
+                info['shadow'] = True
+            own.add(name)
+            b2 = b2 | {name}
+        for x in (e[3:] if k == 'mq' else e[2:]):
+            _scan(x, b2, info)
     elif k == 'inline':
         info['binders'].add('inline')
         for a in e[3]:
@@ -606,7 +827,7 @@ def judge_scope(case, rec: Recorder | None = None):
     prog = case['prog']
     outer = {k: [v] if not isinstance(v, list) else v for k, v in case['outer'].items()}
     text = render(prog)
-    info = {'binders': set(), 'shadow': False, 'free': False}
+    info = {'binders': set(), 'shadow': False, 'free': False, 'rebind': False, 'self-range': False}
     _scan(prog, set(outer), info)
     try:
         want = ('v', interp(prog, outer))
@@ -620,6 +841,10 @@ def judge_scope(case, rec: Recorder | None = None):
         classes.append('scope:free-variable')
     if 'inline' in info['binders']:
         classes.append('scope:inline-function')
+    if info['rebind']:
+        classes.append('scope:multi-clause-rebind')
+    if info['self-range']:
+        classes.append('scope:range-reads-own-name')
     verdict = not (want[0] == 'e' and want[1] != 'XPST0008')
     if not verdict:
         classes.append('scope:no-verdict')
@@ -635,24 +860,27 @@ def judge_scope(case, rec: Recorder | None = None):
             got = ('e', (x.code or type(x).__name__).split(':')[-1], str(x))
         except Exception as x:
             got = ('x', x)
-        bk = 'with-inline-function' if 'inline' in info['binders'] else 'for-let-quantified' if info['binders'] else 'no-binder'
+        bk = 'with-inline-function' if 'inline' in info['binders'] else 'multi-clause-rebind' if info['rebind'] else \
+            'for-let-quantified' if info['binders'] else 'no-binder'
+        if info['self-range']:
+            bk = 'range-reads-own-name'
         sh = 'shadow' if info['shadow'] else 'noshadow'
         if got[0] == 'x':
             discs.append(Disc(escape_bucket('C05', got[1]) + f'/scope/{bk}', want, repr(got[1]), text))
         elif want[0] == 'e':
             if got[0] != 'e':
-                discs.append(Disc(f'C05/scope/free-variable-visible/{bk}/{sh}', 'XPST0008', got[1], text))
+                discs.append(Disc(f'C05/scope/{bk}/free-variable-visible/{sh}', 'XPST0008', got[1], text))
             elif got[1] != 'XPST0008':
                 classes.append('scope:other-error-first')      # another error of the program was raised first: allowed
         elif got[0] == 'e':
-            discs.append(Disc(f'C05/scope/error:{got[1]}/{bk}/{sh}', want[1], got[1:], text))
+            discs.append(Disc(f'C05/scope/{bk}/error:{got[1]}/{sh}', want[1], got[1:], text))
         else:
             g = [(type(x).__name__, x) for x in got[1]]
             w = [(type(x).__name__, x) for x in want[1]]
             if g != w:
-                discs.append(Disc(f'C05/scope/value/{bk}/{sh}', want[1], got[1], text))
+                discs.append(Disc(f'C05/scope/{bk}/value/{sh}', want[1], got[1], text))
         if repr(variables) != snap:
-            discs.append(Disc(f'C05/scope/caller-variables-modified/{bk}', snap, repr(variables), text))
+            discs.append(Disc(f'C05/scope/{bk}/caller-variables-modified', snap, repr(variables), text))
     if rec is not None:
         rec.case(case, nontrivial=info['shadow'] or info['free'], sample={'check': 'scope', 'xpath': text, 'case': case},
                  classes=classes)
@@ -690,6 +918,9 @@ _T2 = [t[0] for t in TEMPLATES if t[1] == 2]
 _TALL = [t[0] for t in TEMPLATES]
 _DT_T = [t[0] for t in TEMPLATES if t[0].startswith(('dt-', 'time-', 'date-'))]
 _FN_T = [t[0] for t in TEMPLATES if t[1] >= 3]
+_FNITEM_T = [t[0] for t in TEMPLATES if t[0].startswith('fn-')]
+_SER_T = [t[0] for t in TEMPLATES if t[0].startswith(('ser-', 'parse-', 'json-', 'xml-to-json'))]
+_REBIND_T = [t[0] for t in TEMPLATES if '-rebind' in t[0]]
 
 
 def decode_hist(parts):
@@ -701,13 +932,15 @@ def decode_hist(parts):
     nex = 3 + s.n(4)
     exprs = []
     for _ in range(nex):
-        c = s.n(10)
-        name = s.pick(_DT_T) if c < 3 else s.pick(_FN_T) if c < 6 else s.pick(_TALL)
+        c = s.n(12)
+        name = (s.pick(_DT_T) if c < 2 else s.pick(_FNITEM_T) if c < 4 else s.pick(_SER_T) if c < 7 else
+                s.pick(_REBIND_T) if c < 8 else s.pick(_FN_T) if c < 10 else s.pick(_TALL))
         exprs.append([name, s.pick([2, 3, 31, 31])])
     vars_ = []
     for _ in range(2 + s.n(2)):
         vars_.append({'n': s.pick([2, 1, 0, 3]), 's': s.pick(['t', '1', 'x y', '']), 'seq': s.many(lambda: s.pick([1, 2, 3, 5]), 0, 4),
-                      'd1': s.pick(DT_POOL), 'd2': s.pick(DT_POOL), 't1': s.pick(TIME_POOL), 'dd': s.pick(DATE_POOL)})
+                      'd1': s.pick(DT_POOL), 'd2': s.pick(DT_POOL), 't1': s.pick(TIME_POOL), 'dd': s.pick(DATE_POOL),
+                      'sp': s.n(len(SER_PARAM_SETS))})
     steps = []
     for i in range(0, len(step_bytes) - 5, 6):
         b = step_bytes[i:i + 6]
@@ -746,20 +979,73 @@ def g_expr(s: Src, depth, bound):
         return ['plus', ['var', s.pick(names)] if s.n(2) else ['int', s.n(5)], ['int', s.pick([1, 10, 100])]]
     if c < 45:
         return ['count', sub()]
-    if c < 58:
+    if c < 55:
         return ['for', v, ['seq', [['int', s.pick([1, 2, 3])] for _ in range(1 + s.n(3))]], sub(bound | {v})]
-    if c < 72:
+    if c < 66:
         return ['let', v, sub(), sub(bound | {v})]
-    if c < 80:
+    if c < 72:
         return [s.pick(['some', 'every']), v, ['seq', [['int', s.pick([1, 2, 3])] for _ in range(1 + s.n(3))]],
                 ['var', v], ['int', s.pick([1, 2, 3])]]
-    if c < 92:
+    if c < 82:
         params = [v] if s.n(3) else [v, s.pick(['w', 'u'])]
         params = list(dict.fromkeys(params))
         return ['inline', params, sub(bound | set(params)), [sub() for _ in params]]
+    if c < 94:
+        return g_multi(s, depth, bound)
     params = [v]
     return ['letfn', 'f', params, sub(bound | set(params)),
             ['seq', [['callvar', 'f', [sub()]], ['var', v]]] if s.n(2) else ['callvar', 'f', [sub()]]]
+
+
+def g_range(s: Src, names):
+    """a range / value expression of a clause: literal integers or something reading an earlier name"""
+    c = s.n(10)
+    nm = s.pick(names) if names else None
+    if nm is None or c < 3:
+        return ['seq', [['int', s.pick([1, 2, 3])] for _ in range(s.pick([2, 2, 3, 1]))]]
+    if c < 6:
+        return ['plus', ['var', nm], ['int', s.pick([10, 1, 100])]]
+    if c < 8:
+        return ['seq', [['var', nm], ['int', s.pick([7, 8])]]]
+    if c < 9:
+        return ['seq', [['plus', ['var', nm], ['int', 1]], ['plus', ['var', nm], ['int', 2]]]]
+    return ['var', nm]
+
+
+def g_multi(s: Src, depth, bound):
+    """one binder with 2-4 clauses; a later clause often rebinds the name of an earlier one and a range
+    expression in between reads that name (the earlier clause yields >= 2 items most of the time: restarts)"""
+    kind = s.pick(['mfor', 'mfor', 'mq', 'mlet', 'mfor', 'mq'])
+    n = 2 + s.n(3)
+    pool = ['v', 'w', 'u']
+    clauses, names = [], []
+    for i in range(n):
+        if i and s.n(3) != 0:
+            name = s.pick(names)                # rebind an earlier name of this binder
+        else:
+            name = s.pick(pool)
+        if i == 0:
+            own = s.n(8) == 0 and name in bound
+            x = ['seq', [['var', name], ['int', 5]]] if own else \
+                ['seq', [['int', k] for k in ([1, 2], [1, 2, 3], [2, 1], [3])[s.n(4)]]]
+        else:
+            # (a range that reads the clause's own name is legal - it sees the earlier/outer binding - but elementpath
+            #  rejects it statically, a known finding: keep it rare so that it does not eat the value verdicts)
+            avail = names if s.n(6) else sorted(bound)
+            if s.n(10):
+                avail = [x for x in avail if x != name]
+            x = g_range(s, avail)
+        if kind == 'mlet' and x[0] == 'seq' and s.n(2):
+            x = x[1][0]
+        clauses.append([name, x])
+        names.append(name)
+    allnames = sorted(set(names))
+    if kind == 'mq':
+        return ['mq', s.pick(['some', 'every']), clauses, ['var', s.pick(allnames)],
+                ['int', s.pick([1, 2, 3, 11, 21])] if s.n(3) else ['plus', ['var', s.pick(allnames)], ['int', s.n(2)]]]
+    body = ['seq', [['var', x] for x in allnames]] if s.n(2) else \
+        g_expr(s, min(depth - 1, 1), bound | set(names)) if depth > 0 and s.n(2) else ['var', s.pick(allnames)]
+    return [kind, clauses, body]
 
 
 def decode_scope(data):
@@ -770,7 +1056,7 @@ def decode_scope(data):
         outer['v'] = s.pick([5, 'x', [5, 6]])
     if c in (0, 1, 2, 3, 9):
         outer['w'] = s.pick(['y', 8])
-    body = g_expr(s, 3, set(outer))
+    body = g_multi(s, 2, set(outer)) if s.n(3) == 0 else g_expr(s, 3, set(outer))
     # the statement's shape: (binder ..., $v) - read the name again OUTSIDE the binding expression
     tail = ['var', s.pick(['v', 'w', 'v'])]
     prog = ['seq', [body, tail]] if s.n(4) else ['seq', [tail, body, tail]]
@@ -807,6 +1093,14 @@ def selftest():
         except ScopeError as x:
             assert x.code == 'XPST0008'
     assert render(['seq', [['let', 'v', I(7), V('v')], V('v')]]) == '((let $v := 7 return $v), $v)'
+    # several clauses in one binder: a later clause may rebind an earlier name, ranges see the bindings so far
+    rebind = ['mfor', [['x', ['seq', [I(1), I(2)]]], ['y', ['plus', V('x'), I(10)]], ['x', ['plus', V('y'), I(1)]]], V('x')]
+    assert interp(rebind, {}) == [12, 13] and interp(['seq', [rebind, V('x')]], {'x': [5]}) == [12, 13, 5]
+    assert render(rebind) == '(for $x in (1, 2), $y in ($x + 10), $x in ($y + 1) return $x)'
+    assert interp(['mq', 'some', rebind[1], V('x'), I(13)], {}) == [True]
+    assert interp(['mq', 'every', rebind[1], V('x'), ['plus', V('y'), I(1)]], {'x': [0]}) == [True]
+    assert interp(['mlet', [['x', I(1)], ['y', ['plus', V('x'), I(1)]], ['x', ['plus', V('y'), I(1)]]], ['seq', [V('x'), V('y')]]], {}) == [3, 2]
+    assert interp(['mfor', [['x', ['seq', [V('x'), I(5)]]]], V('x')], {'x': [9]}) == [9, 5]     # the range reads the outer $x
     assert len(T_BY_NAME) == len(TEMPLATES)
 
 
